@@ -46,6 +46,20 @@ def _seed():
     return 1
 
 
+def _wrap_spin(mod):
+  # a greenlet of the code under test that spins on a dead simulated socket without ever yielding would hang the
+  # run; the socket counts such calls (deterministically), stops the spin and the case is reported here
+  from vf.world import Violation, SpinDetected
+  inner = mod.execute
+
+  def execute(plan):
+    try:
+      return inner(plan)
+    except SpinDetected as e:
+      raise Violation(mod.ID, 'busy-loop', str(e))
+  mod.execute = execute
+
+
 def load_known(prop_id):
   from vf.boot import VERIF_DIR
   path = os.path.join(VERIF_DIR, 'known_findings.json')
@@ -330,6 +344,7 @@ def main():
   try:
     import vf.boot  # noqa: F401
     mod = importlib.import_module('vf.props.' + args.prop.lower())
+    _wrap_spin(mod)
     seed = _seed()
     if args.replay:
       return run_replay(mod, args.replay)
